@@ -71,23 +71,26 @@ class MixedCategoricalAggregator(Aggregator):
         if weights is not None and len(weights) != len(y):
             raise ValueError("The length of `weights` must match the number of predictors in `y`.")
 
-        self._np = np
+        # Array namespace of this call (kept local: the aggregator can be shared by several callers)
+        xp = np
         if all(isinstance(pred, np.ma.MaskedArray) for pred in y):
-            self._np = np.ma
+            xp = np.ma
 
         # Stack predictions and compute ensemble probabilities
-        y_proba_models = self._np.stack(
+        y_proba_models = xp.stack(
             y, axis=0
         )  # Shape: (n_predictors, n_samples, ..., n_classes)
-        y_proba_ensemble = self._np.average(y_proba_models, weights=weights, axis=0)
+        y_proba_ensemble = xp.average(y_proba_models, weights=weights, axis=0)
 
         agg = {"loc": y_proba_ensemble}
 
         # Compute uncertainty
         if self.uncertainty_method == "confidence":
-            self._compute_confidence_uncertainty(agg, y_proba_models, y_proba_ensemble, weights)
+            self._compute_confidence_uncertainty(
+                agg, y_proba_models, y_proba_ensemble, weights, xp
+            )
         elif self.uncertainty_method == "entropy":
-            self._compute_entropy_uncertainty(agg, y_proba_models, y_proba_ensemble, weights)
+            self._compute_entropy_uncertainty(agg, y_proba_models, y_proba_ensemble, weights, xp)
 
         return agg
 
@@ -97,17 +100,18 @@ class MixedCategoricalAggregator(Aggregator):
         y_proba_models: np.ndarray,
         y_proba_ensemble: np.ndarray,
         weights: Optional[List[float]],
+        xp=np,
     ):
         """Compute confidence-based uncertainty."""
-        uncertainty = 1 - self._np.max(y_proba_ensemble, axis=-1)
+        uncertainty = 1 - xp.max(y_proba_ensemble, axis=-1)
 
         if not self.decomposed_uncertainty:
             agg["uncertainty"] = uncertainty
         else:
-            uncertainty_aleatoric = self._np.average(
-                1 - self._np.max(y_proba_models, axis=-1), weights=weights, axis=0
+            uncertainty_aleatoric = xp.average(
+                1 - xp.max(y_proba_models, axis=-1), weights=weights, axis=0
             )
-            uncertainty_epistemic = self._np.maximum(0, uncertainty - uncertainty_aleatoric)
+            uncertainty_epistemic = xp.maximum(0, uncertainty - uncertainty_aleatoric)
 
             agg["uncertainty_aleatoric"] = uncertainty_aleatoric
             agg["uncertainty_epistemic"] = uncertainty_epistemic
@@ -118,21 +122,22 @@ class MixedCategoricalAggregator(Aggregator):
         y_proba_models: np.ndarray,
         y_proba_ensemble: np.ndarray,
         weights: Optional[List[float]],
+        xp=np,
     ):
         """Compute entropy-based uncertainty."""
-        uncertainty = self._entropy(y_proba_ensemble, axis=-1)
+        uncertainty = self._entropy(y_proba_ensemble, axis=-1, xp=xp)
 
         if not self.decomposed_uncertainty:
             agg["uncertainty"] = uncertainty
         else:
-            expected_entropy = self._np.average(
-                self._entropy(y_proba_models, axis=-1), weights=weights, axis=0
+            expected_entropy = xp.average(
+                self._entropy(y_proba_models, axis=-1, xp=xp), weights=weights, axis=0
             )
-            uncertainty_epistemic = self._np.maximum(0, uncertainty - expected_entropy)
+            uncertainty_epistemic = xp.maximum(0, uncertainty - expected_entropy)
 
             agg["uncertainty_aleatoric"] = expected_entropy
             agg["uncertainty_epistemic"] = uncertainty_epistemic
 
-    def _entropy(self, prob, axis=None):
+    def _entropy(self, prob, axis=None, xp=np):
         eps = np.finfo(prob.dtype).eps
-        return -self._np.sum(prob * self._np.log(prob + eps), axis=-1)
+        return -xp.sum(prob * xp.log(prob + eps), axis=-1)
